@@ -92,7 +92,7 @@ def policy_spec(draw, name, tight=False, batching=None):
 
 @st.composite
 def call_cases(draw, policies=ALL_POLICIES, max_tasks=6, max_pools=2, max_workers=2, tight_deadlines=False, running=True, scheduled=True,
-               max_runtime=6, max_strategies=2, allow_cond=False, batching=None, flat=False):
+               max_runtime=6, max_strategies=2, allow_cond=False, batching=None, flat=False, plan_ahead_children=False):
     """`flat`: several independent released single-task graphs and no history - many tasks compete in one invocation."""
     pname = draw(st.sampled_from(list(policies)))
     cluster = draw(specs.clusters(max_pools=max_pools, max_workers=max_workers))
@@ -137,6 +137,28 @@ def call_cases(draw, policies=ALL_POLICIES, max_tasks=6, max_pools=2, max_worker
             elif r == 1 and scheduled:
                 sched.append({"graph": g["name"], "job": j["name"], "pool": draw(st.integers(0, 2)), "worker": draw(st.integers(0, 2)),
                               "strategy": draw(st.integers(0, 2)), "at": draw(st.integers(0, 6))})
+    if plan_ahead_children and scheduled:
+        # a child planned ahead by an earlier invocation: SCHEDULED (still VIRTUAL before) after a parent that is itself
+        # RUNNING or SCHEDULED; its planned start respects the parents' worst-case ends
+        for g in graphs:
+            names = [j["name"] for j in g["jobs"]]
+            parents = {n: [] for n in names}
+            for j in g["jobs"]:
+                for c in j["children"]:
+                    parents[names[c]].append(j["name"])
+            placed = {r["job"]: max_runtime for r in run if r["graph"] == g["name"]}
+            placed.update({r["job"]: r["at"] + max_runtime for r in sched if r["graph"] == g["name"]})
+            done = {j for gg, j in completed if gg == g["name"]}
+            for j in g["jobs"]:
+                n = j["name"]
+                ps = parents[n]
+                if n in placed or n in done or not ps or not all(p in done or p in placed for p in ps) or all(p in done for p in ps):
+                    continue
+                if draw(st.integers(0, 2)) == 0:
+                    at = max(placed[p] for p in ps if p in placed) + 1 + draw(st.integers(0, 3))
+                    sched.append({"graph": g["name"], "job": n, "pool": draw(st.integers(0, 2)), "worker": draw(st.integers(0, 2)),
+                                  "strategy": draw(st.integers(0, 2)), "at": at})
+                    placed[n] = at + max_runtime
     pol = draw(policy_spec(pname, batching=batching))
     if pol.get("batching"):
         for p in profiles:
